@@ -87,13 +87,18 @@ def parse_turn(repo):
         raise TranslateError("%s: from_angle is not a single `match angle { .. }`" % path)
     arms_txt = mm.group(1)
     # range arms, then the catch-all
-    arm_re = re.compile(r"\s*(-?\d+)\s*\.\.=\s*(-?\d+)\s*=>\s*Ok\s*\(\s*Turn::([A-Za-z0-9]+)\s*\)\s*,")
+    arm_re = re.compile(r"\s*(-?\d+)\s*\.\.(=?)\s*(-?\d+)\s*=>\s*Ok\s*\(\s*Turn::([A-Za-z0-9]+)\s*\)\s*,")
     pos, rows = 0, []
     while True:
         a = arm_re.match(arms_txt, pos)
         if not a:
             break
-        lo, hi, v = int(a.group(1)), int(a.group(2)), a.group(3)
+        lo, hi, v = int(a.group(1)), int(a.group(3)), a.group(4)
+        if a.group(2) != "=":
+            hi -= 1          # half-open `lo..hi`: the last value of the arm is hi - 1
+        if hi < lo:
+            pos = a.end()    # an empty range matches nothing
+            continue
         if v not in variants:
             raise TranslateError("%s: arm names unknown variant %s" % (path, v))
         if not (-32768 <= lo <= 32767 and -32768 <= hi <= 32767):
@@ -137,15 +142,18 @@ def z(n):
     return "(%d)" % n if n < 0 else "%d" % n
 
 
-def generate(repo, gen_dir):
-    variants, rows, raw1 = parse_turn(repo)
-    wrap, raw2 = parse_heading(repo)
-    digest = hashlib.sha256(raw1 + raw2).hexdigest()
+ALL_VARIANTS = ["NoTurn", "SlightRight", "SlightLeft", "Right", "Left", "SharpRight", "SharpLeft", "UTurn"]
+SNAKE = {"no_turn": "NoTurn", "slight_right": "SlightRight", "slight_left": "SlightLeft", "right": "Right", "left": "Left",
+         "sharp_right": "SharpRight", "sharp_left": "SharpLeft", "u_turn": "UTurn"}
+I16 = (-32768, 32767)
+
+
+def render(variants, rows, wrap, origin):
     lines = []
-    lines.append("(* GENERATED by translator/tr_turn.py from %s/{turn,edge_heading}.rs -- do not edit.\n"
-                 "   Rows of Turn::from_angle in source order, bounds inclusive as written (`lo..=hi`); every other angle is\n"
-                 "   Err(RuntimeError).  Wrap of EdgeHeading::bearing_to_destination:\n"
-                 "   if angle <hi_cmp> wrap_hi { angle - wrap_sub } else if angle <lo_cmp> wrap_lo { angle + wrap_add } else { angle }. *)" % DIR)
+    lines.append("(* %s -- do not edit.\n"
+                 "   Rows of Turn::from_angle, bounds inclusive; every other angle is Err(RuntimeError).\n"
+                 "   Wrap of EdgeHeading::bearing_to_destination:\n"
+                 "   if angle <hi_cmp> wrap_hi { angle - wrap_sub } else if angle <lo_cmp> wrap_lo { angle + wrap_add } else { angle }. *)" % origin)
     lines.append("From Coq Require Import ZArith String List.\nImport ListNotations.\nOpen Scope string_scope.\nOpen Scope Z_scope.\n")
     lines.append("Module TurnTable.\n")
     lines.append("Inductive wcmp : Set := WGt | WGe | WLt | WLe.\n")
@@ -157,13 +165,121 @@ def generate(repo, gen_dir):
     lines.append("Definition wrap_lo_cmp : wcmp := %s.\nDefinition wrap_lo : Z := %s.\nDefinition wrap_add : Z := %s.\n"
                  % (wrap["lo_cmp"], z(wrap["lo"]), z(wrap["add"])))
     lines.append("End TurnTable.")
-    content = "\n".join(lines) + "\n"
+    return "\n".join(lines) + "\n"
+
+
+def write(gen_dir, content):
     path = os.path.join(gen_dir, "TurnTable.v")
     old = open(path).read() if os.path.exists(path) else None
     changed = old != content
     if changed:
         os.makedirs(gen_dir, exist_ok=True)
         open(path, "w").write(content)
+    return path, changed
+
+
+def generate(repo, gen_dir):
+    """route 1: from the source text"""
+    variants, rows, raw1 = parse_turn(repo)
+    wrap, raw2 = parse_heading(repo)
+    digest = hashlib.sha256(raw1 + raw2).hexdigest()
+    content = render(variants, rows, wrap, "GENERATED by translator/tr_turn.py from %s/{turn,edge_heading}.rs (source text; arms in "
+                                          "source order, half-open arms written with their last value)" % DIR)
+    path, changed = write(gen_dir, content)
     return {"ok": True, "msg": "%d variants, %d range arms, wrap %s %d / %s %d" %
             (len(variants), len(rows), wrap["hi_cmp"], wrap["hi"], wrap["lo_cmp"], wrap["lo"]),
-            "digest": digest, "files": [path], "changed": changed}
+            "digest": digest, "files": [path], "changed": changed,
+            "parsed": {"variants": variants, "rows": rows, "wrap": wrap}}
+
+
+def digest(repo):
+    h = hashlib.sha256()
+    for f in SOURCE_FILES:
+        p = os.path.join(repo, DIR, f)
+        h.update(open(p, "rb").read() if os.path.exists(p) else b"")
+    return h.hexdigest()
+
+
+# --------------------------------------------------------------------------- route 2: behaviour of the compiled code
+
+def parse_behaviour(beh):
+    """`c03 table` output -> (variants, rows, wrap); raises TranslateError when the behaviour is not of the tabulated shape"""
+    rows = []
+    for lo, hi, name in beh.get("from_angle", []):
+        if name not in SNAKE:
+            raise TranslateError("behaviour: Turn::from_angle returns %r on %d..%d (not a known variant / a panic)" % (name, lo, hi))
+        rows.append((int(lo), int(hi), SNAKE[name]))
+    if not rows:
+        raise TranslateError("behaviour: Turn::from_angle accepts no angle")
+    if not beh.get("diff_only"):
+        raise TranslateError("behaviour: bearing_to_destination is not a function of destination.start - self.end")
+    runs = beh.get("bearing", [])
+    # expected: x + A below L, x on [L, H], x - S above H
+    if (len(runs) != 3 or runs[0][0] != I16[0] or runs[2][1] != I16[1] or runs[1][2] != 0
+            or not all(isinstance(r[2], int) for r in runs) or runs[0][2] >= 0 or runs[2][2] <= 0
+            or runs[0][1] + 1 != runs[1][0] or runs[1][1] + 1 != runs[2][0]):
+        raise TranslateError("behaviour: bearing_to_destination is not `wrap once above / below a threshold`: %r" % (runs[:6],))
+    wrap = {"hi_cmp": "WGt", "hi": runs[1][1], "sub": runs[2][2], "lo_cmp": "WLt", "lo": runs[1][0], "add": -runs[0][2]}
+    return ALL_VARIANTS, rows, wrap
+
+
+def generate_from_behaviour(beh, gen_dir):
+    variants, rows, wrap = parse_behaviour(beh)
+    content = render(variants, rows, wrap, "BEHAVIOURAL EXTRACTION (the source text was not recognised by translator/tr_turn.py): what the compiled "
+                                          "Turn::from_angle / EdgeHeading::bearing_to_destination return on every i16 value, tabulated by `c03 table`")
+    path, changed = write(gen_dir, content)
+    return {"ok": True, "msg": "TurnTable.v from behaviour: %d runs, wrap > %d -%d / < %d +%d"
+                               % (len(rows), wrap["hi"], wrap["sub"], wrap["lo"], wrap["add"]),
+            "files": [path], "changed": changed, "parsed": {"variants": variants, "rows": rows, "wrap": wrap}}
+
+
+def semantics(parsed):
+    """the table as functions over the whole i16 range, run-length encoded like `c03 table` does"""
+    rows, w = parsed["rows"], parsed["wrap"]
+
+    def fa(a):
+        for lo, hi, v in rows:
+            if lo <= a <= hi:
+                return v
+        return None
+
+    def cmp(c, a, b):
+        return {"WGt": a > b, "WGe": a >= b, "WLt": a < b, "WLe": a <= b}[c]
+
+    def be(x):
+        if cmp(w["hi_cmp"], x, w["hi"]):
+            r = x - w["sub"]
+        elif cmp(w["lo_cmp"], x, w["lo"]):
+            r = x + w["add"]
+        else:
+            r = x
+        return x - r if I16[0] <= r <= I16[1] else "panic"
+
+    def rle(f, skip=None):
+        out, run = [], None
+        for a in range(I16[0], I16[1] + 1):
+            v = f(a)
+            if run and run[2] == v:
+                run[1] = a
+            else:
+                if run and run[2] != skip:
+                    out.append(run)
+                run = [a, a, v]
+        if run and run[2] != skip:
+            out.append(run)
+        return out
+    return rle(fa, skip=None), rle(be, skip="never")
+
+
+def compare_with_behaviour(parsed, beh):
+    """both routes exist: list of disagreements (empty = the text was read correctly)"""
+    fa, be = semantics(parsed)
+    bad = []
+    want_fa = [[lo, hi, SNAKE.get(n, n)] for lo, hi, n in beh.get("from_angle", [])]
+    if fa != want_fa:
+        bad.append({"what": "Turn::from_angle", "source_text": fa[:12], "compiled": want_fa[:12]})
+    if be != [list(r) for r in beh.get("bearing", [])]:
+        bad.append({"what": "bearing_to_destination", "source_text": be[:6], "compiled": beh.get("bearing", [])[:6]})
+    if not beh.get("diff_only"):
+        bad.append({"what": "bearing_to_destination depends on more than the heading difference"})
+    return bad
